@@ -10,7 +10,7 @@ package main
 import "fmt"
 
 func runC05rules(cfg Config, r *Result) {
-	r.Rule = "base programs (C05 seeds, corpus, typed generator, return-path trees) and their rule-breaking mutants (one edit per rule and position: undeclared / unused variable, redeclaration, type mismatch, argument count, unknown function, missing return, unreachable code, break outside a loop, value returned from a handler / procedure, stray text after a statement / after end); each through parser.Parse and through the extracted parser model; compared: accept/reject and the ordered error positions. non-trivial: every mutant; distinct = distinct text"
+	r.Rule = "base programs (C05 seeds, corpus, typed generator, return-path trees, scope trees) and their rule-breaking mutants (one edit per rule and position: undeclared / unused variable, redeclaration, type mismatch, argument count, unknown function, missing return, unreachable code, break outside a loop, value returned from a handler / procedure, stray text after a statement / after end); each through parser.Parse and through the extracted parser model; compared: accept/reject and the ordered error positions. non-trivial: every mutant; distinct = distinct text"
 	model, err := StartModel("parser")
 	if err != nil {
 		r.Violate(Violation{Kind: "correspondence", Key: "model-start", Detail: err.Error()})
@@ -41,6 +41,17 @@ func runC05rules(cfg Config, r *Result) {
 		run(p, "base:return-tree")
 	}
 	for _, m := range rtMut {
+		if out := run(m.Src, "rule:"+m.Rule); out == "both-accept" {
+			r.Dist("mutant-accepted-by-both:" + m.Rule)
+		}
+	}
+	// scope trees (harness/c05scope.go); the extracted model needs ~30 ms for one of these, hence few of them here
+	// (C05 proper runs many more against its own oracle)
+	scValid, scMut := c05ScopeMutants(cfg, cfg.N(30, 100))
+	for _, p := range scValid {
+		run(p, "base:scope-tree")
+	}
+	for _, m := range scMut {
 		if out := run(m.Src, "rule:"+m.Rule); out == "both-accept" {
 			r.Dist("mutant-accepted-by-both:" + m.Rule)
 		}
